@@ -6,6 +6,10 @@ import (
 	"io"
 	"log"
 	"os"
+	"runtime/pprof"
+	"time"
+
+	"github.com/skycoin/skycoin/src/util/logging"
 
 	"verif/engine"
 )
@@ -43,6 +47,17 @@ func main() {
 		fmt.Fprintln(os.Stderr, "replay: re-running the quick tier (replay files of this group hold plain inputs; every case of the file is inside the quick alphabet)")
 		tier = "quick"
 	}
+	if pf := os.Getenv("VERIF_CPUPROFILE"); pf != "" { // developer aid only
+		if fh, err := os.Create(pf); err == nil {
+			pprof.StartCPUProfile(fh)
+			go func() {
+				time.Sleep(60 * time.Second)
+				pprof.StopCPUProfile()
+				fh.Close()
+			}()
+		}
+	}
+	logging.Disable()
 	r := engine.Start(id, tier, levels[id])
 	defer engine.Cleanup()
 	f(r)
